@@ -39,6 +39,11 @@ def rand_reads(rng, size):
     k = rng.below(8)
     if k == 7:
         # vectored reads: several slices that each fit in what is left but together exceed it
+        # (most of the body with plain reads, then slices such that each is <= what is left, their sum is not)
+        if size > 70:
+            tail = rng.choice([64, 5, 33])
+            sl = tail * 3 // 4 if tail > 4 else 3
+            return [(size - tail, 4096), (None, "%d*2" % max(1, sl))]
         n = max(1, size // 3 + 1)
         return [(None, "%d*3" % n)]
     if k == 0:
